@@ -351,4 +351,4 @@ def check(ctx):
     r3_macro_one_name_per_variant(ctx)
 
 
-CLAUSE += '; the configuration key the macro forwards is the key the user wrote'
+CLAUSE += ' Also: the configuration key the macro forwards is the key the user wrote.'
